@@ -2071,6 +2071,53 @@ theorem punishSequencer_skeleton : Gen.Core.L.punishSequencer =
    "  k.SetSequencer(ctx, seq)",
    "  return nil"] := rfl
 
+/-- `NewSequencerProposalHandler` (the legacy gov route of x/sequencer): the only content type it serves
+    is the punish proposal — `Core.Op.punish` -/
+theorem newSequencerProposalHandler_skeleton : Gen.Core.L.newSequencerProposalHandler =
+  ["func NewSequencerProposalHandler(k keeper.Keeper) govtypes.Handler",
+   "  return func#1",
+   "    func#1 (ctx sdk.Context, content govtypes.Content) error",
+   "      switch c := content.(type)",
+   "        case *types.PunishSequencerProposal",
+   "          return HandlePunishSequencerProposal(ctx, k, c)",
+   "        default",
+   "          return types.ErrUnknownRequest"] := rfl
+
+/-- `HandlePunishSequencerProposal` as mirrored by `Core.punishProposal`: `PunishSequencer` and nothing
+    else (no fork, no role change) -/
+theorem handlePunishSequencerProposal_skeleton : Gen.Core.L.handlePunishSequencerProposal =
+  ["func HandlePunishSequencerProposal(ctx sdk.Context, k keeper.Keeper, p *types.PunishSequencerProposal) error",
+   "  err := k.PunishSequencer(ctx, p.PunishSequencerAddress, p.MustRewardee())",
+   "  if err != nil",
+   "    return err",
+   "  return nil"] := rfl
+
+/-- `PunishSequencerProposal.ProposalRoute` -/
+theorem punishProposalRoute_skeleton : Gen.Core.L.punishProposalRoute =
+  ["func (csp *PunishSequencerProposal) ProposalRoute() string",
+   "  return RouterKey"] := rfl
+
+/-- `PunishSequencerProposal.ValidateBasic` (only the v1beta1 submission path calls it; x/gov's
+    `ExecLegacyContent` does not: a proposal without a rewardee is executable) -/
+theorem punishProposalValidateBasic_skeleton : Gen.Core.L.punishProposalValidateBasic =
+  ["func (csp *PunishSequencerProposal) ValidateBasic() error",
+   "  err := govtypes.ValidateAbstract(csp)",
+   "  if err != nil",
+   "    return err",
+   "  if len(csp.PunishSequencerAddress) == 0",
+   "    return fmt.Errorf()",
+   "  if len(csp.Rewardee) == 0",
+   "    return fmt.Errorf()",
+   "  return nil"] := rfl
+
+/-- `PunishSequencerProposal.MustRewardee` as mirrored by the model (`rewardee : Option Addr`) -/
+theorem punishProposalMustRewardee_skeleton : Gen.Core.L.punishProposalMustRewardee =
+  ["func (csp PunishSequencerProposal) MustRewardee() *sdk.AccAddress",
+   "  if csp.Rewardee == \"\"",
+   "    return nil",
+   "  rewardee, _ := sdk.AccAddressFromBech32(csp.Rewardee)",
+   "  return &rewardee"] := rfl
+
 /-- `Keeper.slash` as mirrored by the model -/
 theorem slash_skeleton : Gen.Core.L.slash =
   ["func (k Keeper) slash(ctx sdk.Context, seq *types.Sequencer, amt sdk.Coin, rewardMul math.LegacyDec, rewardee sdk.AccAddress) error",
